@@ -224,8 +224,7 @@ func (e *Engine) enterLoopHeader(st *State, fr *Frame, h *ssa.BasicBlock, ord in
 	fx := e.loopEffectsOf(fr.fn, h)
 	// havoc what the loop may write in objects allocated by this call (pre-existing memory is protected by the
 	// frame obligations raised at every store): precise per heap family, one fresh value per allocated object
-	for k := 1; k <= st.nalloc; k++ {
-		ref := Add(alloc0, BVu(uint64(k), 64))
+	for _, ref := range st.allocated {
 		if fx.bytes || fx.all {
 			st.setArr(ref, SymSort(fresh("hv_arr"), byteArrSort))
 			delete(st.text, ref.String())
@@ -246,8 +245,7 @@ func (e *Engine) enterLoopHeader(st *State, fr *Frame, h *ssa.BasicBlock, ord in
 		}
 		cur := harr
 		inner := innerSortOf(cur.Sort)
-		for k := 1; k <= st.nalloc; k++ {
-			ref := Add(alloc0, BVu(uint64(k), 64))
+		for _, ref := range st.allocated {
 			var v *Term
 			switch {
 			case inner == "Bool":
@@ -295,6 +293,7 @@ func (e *Engine) enterLoopHeader(st *State, fr *Frame, h *ssa.BasicBlock, ord in
 	}
 	fr.inLoop[h] = true
 	st.cut = true
+	st.raiseWatermark()
 	a := e.evalContract(st, inv, e.bindByName(st, fr, inv), true)
 	st.assumeT(a)
 	if !e.inc.Sat(st.pc) {
@@ -467,7 +466,24 @@ func (e *Engine) vspecCall(st *State, fr *Frame, name string, args []Val) ([]Out
 		default:
 			fail("vspec.Owned of %T", v)
 		}
-		return one(Or(Eq(ref, BVu(0, 64)), ULt(alloc0, ref)))
+		return one(Or(Eq(ref, BVu(0, 64)), And(ULt(alloc0, ref), ULe(ref, st.watermark()))))
+	case "Watermark":
+		// all memory allocated by the call so far has a reference at most this value
+		return one(st.watermark())
+	case "BaseOf":
+		v := args[0]
+		if iv, ok := v.(IfaceV); ok {
+			v = iv.V
+		}
+		switch x := v.(type) {
+		case SliceV:
+			return one(x.Base)
+		case PtrHeap:
+			return one(x.Ref)
+		case NilV:
+			return one(BVu(0, 64))
+		}
+		fail("vspec.BaseOf of %T", v)
 	case "Fresh":
 		out := args[0].(SliceV)
 		return one(Or(Eq(out.Base, BVu(0, 64)), ULt(alloc0, out.Base)))
